@@ -76,8 +76,11 @@ func parseTime(in string) (time.Time, error) {
 		var mult int = 1e9
 		for i, c = range remaining {
 			if c >= '0' && c <= '9' {
-				val = val*10 + int(c-'0')
-				mult /= 10
+				// Digits beyond nanosecond precision are dropped, as time.Parse does.
+				if mult > 1 {
+					val = val*10 + int(c-'0')
+					mult /= 10
+				}
 			} else {
 				i -= 1
 				break
